@@ -436,6 +436,9 @@ def rand_results(rng, fmt, m, decades=6):
         nz = rng.choice([calls, calls, calls // 2, 0]); fin = nz - (1 if nz and rng.random() < 0.1 else 0)
         if nz and rng.random() < 0.1:
             fin = 0; sm = Fraction(0); ss = Fraction(0)       # only non-finite evaluations: carries no information
+        elif rng.random() < 0.08:
+            sm = Fraction(0)                                   # values that cancel exactly: estimate 0 with a positive error
+            ss = fmt.round(calls * ((calls - 1) * s * s))
         rs.append([calls, nz, fin, fmt.tok(sm), fmt.tok(ss)])
     return rs
 
@@ -596,6 +599,26 @@ def gen_C12(c, rng, tier):
                     s, cl3 = mpi_variant(rng, s, info); cl += cl3
                 c.add(t, 'run', s, classes=cl + cl2, nontrivial=iters >= 2, info=info)
     gen_C12_resumed(c, rng, tier)
+    gen_C12_cancelling(c, rng, tier)
+
+def gen_C12_cancelling(c, rng, tier):
+    """iterations whose values cancel exactly (estimate 0 with a positive error) followed by ordinary ones: such an iteration takes part
+    in the variance-weighted combination the built-in callback decides on"""
+    for t in TYPES:
+        fmt = FMTS[t]
+        for kind in ['plain', 'plain', 'vegas']:
+            for _ in range(scale(tier, 3, 20)):
+                iters = rng.choice([3, 4, 5]); n = rng.choice([4, 6, 8])
+                v = Fraction(rng.randint(1, 9), rng.choice([1, 2, 4]))
+                k = rng.randrange(iters - 1)                 # the iteration that cancels
+                tab = []
+                for i in range(iters):
+                    tab += [v, -v] * (n // 2) if i == k else [Fraction(rng.randint(1, 9), 2) + (Fraction(1, 8) if j % 2 else 0) for j in range(n)]
+                target = rng.choice([Fraction(1, 4), Fraction(1, 10), Fraction(2, 5), Fraction(3, 5)])
+                chk = ['plain'] if kind == 'plain' else ['default', 2, fmt.rtok(0)]
+                s = spec_run(kind, fmt, dims=1, seed=rng.getrandbits(32), chk=chk, f=['tab', toks(fmt, [fmt.round(x) for x in tab])],
+                             cb=['builtin', rng.randrange(4), fmt.rtok(target)], ops=[['run', [n] * iters], ['dump'], ['combine', 'wwv']])
+                c.add(t, 'run', s, classes=['kind_' + kind, 'cancelling_iteration', 'cb_builtin', 'target_positive'], info={'kind': kind, 'dims': 1, 'channels': 1, 'calls': [n] * iters})
 
 def gen_C12_resumed(c, rng, tier):
     """the built-in callback with a positive target on resumed checkpoints: the stop decision must use all results, also those
